@@ -36,6 +36,12 @@ class Path:
         p = Path(self.conds, self.env, self.events, self.passed)
         return p
 
+    def decisions(self):
+        """the branch decisions proper: [(test, polarity)] without loop / handler markers and without what assertions
+        established (an assertion that cannot fail decides nothing)"""
+        return [(t, pol) for t, pol, n in self.conds if isinstance(t, ast.expr) and not isinstance(n, (ast.Assert, ast.ExceptHandler,
+                                                                                                         ast.For, ast.While, ast.AsyncFor))]
+
     def passes(self, stmt):
         return any(x is stmt for x in self.passed)
 
